@@ -14,6 +14,10 @@ size_t BS_GRID_NEXT;              /* ids >= BS_GRID_NEXT are not allocated yet *
 _Bool BS_GEQ[BS_NG][BS_NG];
 /* ghost flag: BS_SORTED[id] means "heap vector id is strictly increasing" (spec.h) */
 _Bool BS_SORTED[BS_NG];
+/* ... and, skolemised, its negation: a vector that is not strictly increasing has a non-increasing adjacent pair
+ * at position BS_SORTED_W[id] (by L_sorted_adjacent_implies_global).  Both are prophecy ghosts: they speak about
+ * the contents slot id holds once it is allocated.                                                             */
+size_t BS_SORTED_W[BS_NG];
 size_t BS_GEQ_W[BS_NG][BS_NG];
 
 /* std::vector<T>::operator== on two grid vectors */
